@@ -343,6 +343,9 @@ def _c04(plan, scratch, log, stats, violation):
             _training_set_oracle(plan, ref.content_rows(scr2), ref.row_ids(scr2), recs_a2, stats, violation)
     # ---- (b) training-set exactness against the reference rows
     _training_set_oracle(plan, rows, ids, recs_a, stats, violation)
+    # ---- (b') the same round on ONE long-lived Screen object after a history of view operations
+    if plan.get("object_round", True):
+        _object_round(plan, rows, ids, stats, violation, log)
     # ---- (c) fail-stop
     _failstop(plan, scratch, screen, rows, stats, violation, log)
     if n_masked > 0:
@@ -351,6 +354,103 @@ def _c04(plan, scratch, log, stats, violation):
 
 def viol_seen(violation):
     return False
+
+
+def _object_round(plan, rows, ids, stats, violation, log):
+    """In-process twin: a driver keeps one Screen object alive, builds views of it (observed part plus
+    batch plates, unions, unique filters ...) and then trains / scores / selects on that same object.
+    Twins differ only in masked values; view operations must not change what counts as observed."""
+    import batchie.models.sparse_combo as M1
+    import batchie.models.sparse_combo_interaction as M2
+    from batchie import sampling
+    from batchie.core import ThetaHolder
+    from batchie.data import ExperimentSpace, ScreenSubset, filter_dataset_to_unique_treatments
+    from batchie.distance.mse import MSEDistance
+    from batchie.distance_calculation import calculate_pairwise_distance_matrix_on_predictions
+    from batchie.scoring.gaussian_dbal import GaussianDBALScorer
+    from batchie.scoring.main import score_chunk, select_next_plate
+    from batchie.scoring.size import SizeScorer
+
+    model_kind = plan["model"]
+    rnd_ops = random.Random(h64(plan["order_seed"], "view-ops"))
+    op_list = [rnd_ops.choice(["observed+plates", "combine", "unique", "plates", "invert", "subsub", "observed+plates"]) for _ in range(rnd_ops.randint(1, 4))]
+    results = []
+    for twin, kind in (("A", None), ("B", plan["poison"])):
+        spec = json.loads(json.dumps(plan["screen"]))
+        if kind:
+            prnd = random.Random(plan["poison_seed"])
+            for r in spec["rows"]:
+                if not r[4]:
+                    k2 = kind if kind != "mixed" else prnd.choice(POISONS[:-1])
+                    r[2] = {"junk": prnd.uniform(-50, 50), "zero": 0.0, "one": 1.0, "negative": -abs(prnd.uniform(0.1, 3)),
+                            "nan": float("nan"), "inf": prnd.choice([float("inf"), float("-inf")])}[k2]
+        scr = gen.make_screen(spec)
+        mask0 = np.asarray(scr.observation_mask).copy()
+        vrnd = random.Random(h64(plan["order_seed"], "view-choices"))
+        unobs = [int(p.plate_id) for p in scr.plates if not p.is_observed]
+        try:
+            for op in op_list:
+                if op == "observed+plates" and unobs:
+                    ScreenSubset.concat([scr.subset_observed()] + [scr.get_plate(p) for p in vrnd.sample(unobs, vrnd.randint(1, len(unobs)))])
+                elif op == "combine" and unobs:
+                    scr.subset_observed().combine(scr.get_plate(vrnd.choice(unobs)))
+                elif op == "unique":
+                    filter_dataset_to_unique_treatments(scr.subset_observed())
+                elif op == "plates":
+                    [p.size for p in scr.plates]
+                elif op == "invert":
+                    scr.subset_observed().invert()
+                elif op == "subsub":
+                    so = scr.subset_observed()
+                    so.subset(np.array([vrnd.random() < 0.5 for _ in range(so.size)], dtype=bool))
+        except Exception as e:
+            log.ev("view-op-raised", type(e).__name__)
+            return
+        stats.steps += len(op_list)
+        if not np.array_equal(np.asarray(scr.observation_mask), mask0):
+            violation("C04.mask-changed-by-view", f"{'+'.join(sorted(set(op_list)))}",
+                      f"building views of the screen ({op_list}) changed its observation mask: masked values would now reach the model")
+            return
+        launch.set_entropy(plan["entropy"])
+        es = ExperimentSpace.from_screen(scr)
+        try:
+            if model_kind == "sdc":
+                m = M1.SparseDrugCombo(experiment_space=es, n_embedding_dimensions=plan["D"])
+            else:
+                m = M2.SparseDrugComboInteraction(experiment_space=es, n_embedding_dimensions=plan["D"])
+            m.add_observations(scr.subset_observed())
+            y, cl, d1, d2 = m.wrapped_model.encode_obs()
+            rec = dict(y=np.asarray(y, dtype=float).tolist(), cline=np.asarray(cl).tolist(), dd1=np.asarray(d1).tolist(),
+                       dd2=np.asarray(d2).tolist(), n_obs=int(m.n_obs()),
+                       lookup=sorted((int(k[0]), int(k[1]), float(v)) for k, v in getattr(m, "single_effect_lookup", {}).items()))
+            holder = ThetaHolder(n_thetas=3)
+            sampling.sample(model=m, results=holder, seed=plan["seed"], n_chains=1, chain_index=0, n_burnin=1, thin=1)
+            dm = calculate_pairwise_distance_matrix_on_predictions(thetas=holder, distance_metric=MSEDistance(), data=scr, chunk_index=0, n_chunks=1)
+            batch = unobs[:1] if plan["batch"] and len(unobs) >= 2 else None
+            scorer = SizeScorer() if plan["scorer"] == "SizeScorer" else GaussianDBALScorer()
+            sh = score_chunk(scorer=scorer, thetas=holder, screen=scr, distance_matrix=dm, rng=np.random.default_rng(plan["seed"]),
+                             n_chunks=1, chunk_index=0, batch_plate_ids=batch)
+            pl = select_next_plate(scores=sh, screen=scr, policy=None, batch_plate_ids=batch or [], rng=np.random.default_rng(1))
+        except Exception as e:
+            if twin == "A":
+                log.ev("object-round-raised", type(e).__name__)
+                return
+            violation("C04.masked-value-influence", f"object-round-crash:{model_kind}:{type(e).__name__}",
+                      f"in-process round on one Screen object: with masked cells set to {plan['poison']} it raised {e!r}; the clean twin ran")
+            return
+        stats.steps += 4
+        results.append(dict(train=digest(rec), thetas=digest([pipe.theta_digest(t) for t in holder.thetas]),
+                            dist=digest(dm.values[: dm.current_index]), scores=digest([sh.plate_ids.tolist(), sh.scores.tolist()]),
+                            selected=None if pl is None else int(pl.plate_id)))
+        if twin == "A":
+            _training_set_oracle(plan, rows, ids, [rec], stats, violation)
+    stats.oracle_evals += 5
+    stats.probe("object_round_compared")
+    for k in ("train", "thetas", "dist", "scores", "selected"):
+        if results[0][k] != results[1][k]:
+            violation("C04.masked-value-influence", f"object-round:{k}:{model_kind}",
+                      f"in-process round on one Screen object after view operations {op_list}: {k} differs between twins that differ only in masked values")
+            break
 
 
 def _logit32(x):
